@@ -10,11 +10,23 @@ import (
 
 // IsoCase: one mutation of the caller's warrior data applied at one API point.
 type IsoCase struct {
-	Mut   int `json:"mutation"`
-	Point int `json:"point"`
+	Mut   int  `json:"mutation"`
+	Point int  `json:"point"`
+	Bare  bool `json:"no_metadata,omitempty"`
 }
 
+// isoBare selects the variant without metadata (hand-built data usually has none).
+var isoBare bool
+
 func isoWarrior() *g.WarriorData {
+	w := isoWarriorFull()
+	if isoBare {
+		w.Name, w.Author, w.Strategy = "", "", ""
+	}
+	return w
+}
+
+func isoWarriorFull() *g.WarriorData {
 	D := g.DIRECT
 	return &g.WarriorData{Name: "iso", Author: "au", Strategy: "st", Code: []g.Instruction{
 		{Op: g.ADD, OpMode: g.AB, AMode: g.IMMEDIATE, A: 1, BMode: D, B: 2},
@@ -134,15 +146,23 @@ const isoPoints = 9
 // RunIso: every (mutation, API point) pair leaves the simulator's observations
 // equal to the unmutated run; the battle leaves the caller's data untouched.
 func (c *Ctx) RunIso() {
+	for _, bare := range []bool{false, true} {
+		isoBare = bare
+		c.runIso()
+	}
+	isoBare = false
+}
+
+func (c *Ctx) runIso() {
 	rep := c.Rep
 	base, before, after, pan := isoRun(-1, 0)
 	rep.States++
 	if pan != "" {
-		c.fail("panic", (&Scenario{Mode: "iso", Iso: &IsoCase{-1, 0}}).witness(), pan)
+		c.fail("panic", (&Scenario{Mode: "iso", Iso: &IsoCase{-1, 0, isoBare}}).witness(), pan)
 		return
 	}
 	if before != after {
-		c.fail("battle-changed-caller-data", (&Scenario{Mode: "iso", Iso: &IsoCase{-1, 0}}).witness(), fmt.Sprintf("caller's data before: %s; after the battle: %s", before, after))
+		c.fail("battle-changed-caller-data", (&Scenario{Mode: "iso", Iso: &IsoCase{-1, 0, isoBare}}).witness(), fmt.Sprintf("caller's data before: %s; after the battle: %s", before, after))
 	}
 	for m := 0; m < nMutations(); m++ {
 		for p := 0; p < isoPoints; p++ {
@@ -157,7 +177,7 @@ func (c *Ctx) checkIso(base []string, m, p int) {
 	rep.States++
 	rep.Transitions++
 	rep.Traces++
-	sc := &Scenario{Mode: "iso", Iso: &IsoCase{m, p}}
+	sc := &Scenario{Mode: "iso", Iso: &IsoCase{m, p, isoBare}}
 	tr, _, _, pan := isoRun(m, p)
 	if pan != "" {
 		c.fail("panic", sc.witness(), pan)
